@@ -128,21 +128,30 @@ theorem toString_utf8_sat (m : Mode) (bytes : List Nat) :
     | substituteInvalid => trivial
     | checkValidity => simp only; split <;> simp [Sat]
 
-/-- **outcomes of `ST::format`** (default or explicit validation): a string, `bad_format`,
+/-- the same for every entry point (`format_latin_1` converts the bytes from Latin-1 and cannot
+    fail except for the size limit) -/
+theorem toString_sat (e : Entry) (bytes : List Nat) :
+    Sat (fun _ => True) (· = .unicodeError) (fun w => w = "String data buffer is too large" ∧ bytes.length ≥ hugeBufferSize)
+      (toStringOf e bytes) := by
+  cases e with
+  | utf8 m => exact toString_utf8_sat m bytes
+  | latin1 => exact Sat.mono (toString_latin1_sat bytes) (fun _ => id) (fun _ => False.elim) (fun _ => id)
+
+/-- **outcomes of `ST::format`** (default or explicit validation) and `ST::format_latin_1`: a string, `bad_format`,
     `out_of_range`, `unicode_error`, the documented char-padding assertion, or — for a result of
     2^28 bytes or more — the documented size-limit assertion of `ST::string`.
     Partial as `char_padding_only_assert_partial` (floating-point renderings below 64 bytes). -/
-theorem outcomes_partial (m : Mode) (fmt : List Nat) (args : List Arg) (hfl : ∀ a ∈ args, a.FloatFits) :
+theorem outcomes_partial (e : Entry) (fmt : List Nat) (args : List Arg) (hfl : ∀ a ∈ args, a.FloatFits) :
     Sat (fun _ => True) (fun e => e = .badFormat ∨ e = .outOfRange ∨ e = .unicodeError)
       (fun w => w = charPaddingMsg ∨
         (w = "String data buffer is too large" ∧ ∃ ev, run (some fmt) args = .ok ev ∧ (flatten ev).length ≥ hugeBufferSize))
-      (runFormat (.utf8 m) (some fmt) args) := by
+      (runFormat e (some fmt) args) := by
   unfold runFormat
   have hs := run_sat fmt args
   cases hr : run (some fmt) args with
   | ok ev =>
     simp only [Outcome.bind]
-    refine Sat.mono (toString_utf8_sat m (flatten ev)) (fun _ => id) (fun e he => Or.inr (Or.inr he)) ?_
+    refine Sat.mono (toString_sat e (flatten ev)) (fun _ => id) (fun e he => Or.inr (Or.inr he)) ?_
     intro w ⟨hw, hl⟩
     exact Or.inr ⟨hw, ev, rfl, hl⟩
   | throw e =>
